@@ -818,6 +818,15 @@ class CallMixin(object):
             owner, fn = self.src.lookup_method(v.cls, "__len__")
             if owner:
                 return self.call_method(st, acc, SV(v.z, "ref", cls=v.cls), "__len__", [], {}, node)
+        if v.z is not None and v.kind is None and v.cls is None:
+            # value of unknown static kind: supported when it is provably a string (tuple items, dict values)
+            if not self.in_spec:
+                self.oblige(st, "type", self.auto_label(node, "lenstr"), self.u.is_S(v.z),
+                            note="len() of a value of unknown static type: must be a string here (engine restriction)")
+            st.assume(self.u.is_S(v.z))
+            n = self.u.str_len(self.u.s(v.z))
+            st.assume(n >= 0)
+            return st, self.mk_int(n)
         raise Undecided("len of %r" % (v,))
 
     def bi_bool(self, st, acc, args, kwargs, node):
